@@ -19,16 +19,13 @@ def mode_table(F, R, name):
     fn = R.anchor(impl(name), "C11.R1")
     if not fn:
         return None
-    B = mir.Body(fn, F)
     try:
-        ps = paths.enumerate_paths(B)
+        rows = paths.decision_rows(F, fn["id"])
     except (paths.HasLoop, paths.TooManyPaths) as e:
         R.fail("C11.R1", "C11.R1:%s:not-analysable" % fn["id"], "-", str(e))
         return None
     table = set()
-    for p in ps:
-        atoms = paths.path_atoms(B, F, p)
-        res = paths.returned_variant(B, p)
+    for atoms, res in rows:
         row = []
         for d, v in atoms:
             if "runAsElevated" in d:
@@ -41,7 +38,7 @@ def mode_table(F, R, name):
                 row.append(("mode==" + d.split("variant:%s::" % MODE)[1].rstrip(")"), v))
             else:
                 row.append(("?" + d, v))
-        table.add((tuple(row), res))
+        table.add((tuple(row), res if isinstance(res, str) else str(res)))
     return table
 
 
@@ -146,6 +143,12 @@ def run(F, R, tier):
                 R.check(not twice, "C11.R2", R.key("C11.R2", HNR, "denial-at-most-one"), q.where(B, e[0]),
                         "after an authorize-failed record no second one is reachable (%d record site(s))" % len(failed_logs),
                         "a denial can be recorded twice: second record at line(s) %s" % [B.line(b) for b in twice])
+            # precise form: the only way from authorize() to a send without a record is through an edge proving result == Ok
+            p_ = B.path([auth[0][0]], sends, cut_blocks=failed_logs, cut_edges=eq_ok)
+            R.check(p_ is None, "C11.R2", "C11.R2:%s:unrecorded-only-if-ok" % HNR, q.where(B, auth[0][0]),
+                    "every path from authorize() to a send either records the denial or crosses an edge proving result == Ok",
+                    "a request whose result is not known to be Ok (e.g. OkWithAudit) reaches the send without an authorize-failed record",
+                    witness={"path_lines": B.path_lines(p_)} if p_ else None)
             # failed records appear only on the != Ok side (after authorize)
             p = B.path([auth[0][0]], failed_logs, cut_edges=ne_ok)
             R.check(p is None, "C11.R2", "C11.R2:%s:record-only-on-denial" % HNR, "-",
